@@ -350,6 +350,9 @@ func c15Reprs(a c15Alpha, idx []int) (names []string, builds []func() any) {
 		}
 		return full
 	})
+	// a named slice type whose underlying type is []any: it can be read without any conversion
+	names = append(names, "named-[]any")
+	builds = append(builds, func() any { return univ.NamedAnys(gen()) })
 	if a.typed != nil {
 		names = append(names, "typed-slice")
 		builds = append(builds, func() any { return a.typed(gen()) })
